@@ -54,9 +54,10 @@ class FakeAlignment:
 
 def make_collector(params, chr_id="chr1"):
     col = ap.AlignmentCollector.__new__(ap.AlignmentCollector)
-    col.chr_id, col.params, col.genedb, col.chr_record, col.illumina_bam = chr_id, params, None, None, None
+    reference = "A" * 6000          # no informative splice-site dinucleotides: strand of ambiguous reads comes out as '.'
+    col.chr_id, col.params, col.genedb, col.chr_record, col.illumina_bam = chr_id, params, None, reference, None
     col.bam_merger = Obj(bam_pairs=[(None, "a.bam")])
-    col.strand_detector = StrandDetector(None)
+    col.strand_detector = StrandDetector(reference)
     col.read_groupper = Obj(get_group_id=lambda alignment, fname=None: "NA")
     col.polya_finder = PolyAFinder(params.polya_window, params.polya_fraction)
     col.polya_fixer = PolyAFixer(params)
